@@ -94,7 +94,7 @@ pub fn run(ctx: &Ctx, rec: &mut Rec) {
         if !g.uses_isqrt {
             continue;
         }
-        let budget = ctx.scale(26, 300);
+        let budget = ctx.scale(60, 300);
         for (inp, cl) in inputs_for(ctx, g, &zoo, &mut zrng, budget) {
             work.push((gi, inp, cl));
         }
@@ -217,7 +217,7 @@ pub fn run(ctx: &Ctx, rec: &mut Rec) {
         bad.push((from_pt(c, &c.t2()), "coords:(0,-1)"));
         bad.push((from_raw(&t4.x, &t4.y, &b(1), &b(0)), "coords:4-torsion"));
         bad.push((from_raw(&f.neg(&t4.x), &t4.y, &b(1), &b(0)), "coords:4-torsion"));
-        for e in zoo.iter().take(ctx.scale(12, 120)) {
+        for e in zoo.iter().take(ctx.scale(30, 120)) {
             let shifted = c.add(&e.m, &t4);
             bad.push((from_pt(c, &shifted), "coords:outside-2E"));
             bad.push((from_pt(c, &c.torque(&e.m)), "coords:other-rep"));
